@@ -118,6 +118,11 @@ pub(crate) fn open_file_reader(
     filename: &str,
     config: &Config,
 ) -> Result<Box<dyn BufRead>, StamError> {
+    #[cfg(stam_verif)]
+    if let Some(vfs) = crate::verif_hooks::vfs() {
+        let found_filename = get_filepath(filename, config.workdir())?;
+        return crate::verif_hooks::vfs_open(&vfs, found_filename.as_path());
+    }
     if filename == "-" {
         //read from stdin
         Ok(Box::new(std::io::stdin().lock()))
@@ -131,6 +136,11 @@ pub(crate) fn open_file_writer(
     filename: &str,
     config: &Config,
 ) -> Result<Box<dyn Write>, StamError> {
+    #[cfg(stam_verif)]
+    if let Some(vfs) = crate::verif_hooks::vfs() {
+        let found_filename = get_filepath(filename, config.workdir())?;
+        return crate::verif_hooks::vfs_create(&vfs, found_filename.as_path());
+    }
     if filename == "-" {
         Ok(Box::new(std::io::stdout()))
     } else {
